@@ -48,6 +48,17 @@ CHECKS = {
              "modelled. Five known findings (ASCII field widths, DLAYXS ASCII read, ISOTXS/GAMISO sub-blocking) are listed in known_findings.json.",
         technique="TLA+ record/format grammar specs + TLC; files written by real code checked against the TLC-computed record sequence; read-back and byte-identical rewrite; TLC trace validation",
     ),
+    "C15": dict(
+        text="Operator.tla models the run loop one hook dispatch per action (BOL, per cycle BOC / nodes / coupled iterations / EOC, EOL, halt and convergence as "
+             "environment choices) with the schedule, dispatch and argument clauses as invariants against a reference nested loop; OperatorDispatch models the "
+             "interface stack (addInterface/removeInterface, flags, exclusion); CycleArithmetic states the (cycle,node)/cumulative conversions and step-length "
+             "sums over exact rationals. TLC checks all of them exhaustively for small constants; every printed run is executed by a real Operator.operate() "
+             "with recording interfaces and compared call by call; seeded larger runs are recorded and validated by TLC as traces.",
+        design="3/C15 and 9",
+        note="Trusted: TLC, the recording interfaces and the rig that builds a real operator on the smallest test reactor. Bounded: <=3 cycles, stacks <=2/3 "
+             "exhaustively (<=4 cycles, stacks <=5 in traces). MPI and snapshot operators not covered.",
+        technique="TLA+ operator/stack/cycle-arithmetic specs + TLC; every TLC run executed by a real Operator; TLC trace validation of recorded hook sequences",
+    ),
 }
 
 NOT_YET = "no specification-bound check has been built for this property yet in this session (planned, see DESIGN.md section 3)"
